@@ -1316,14 +1316,39 @@ impl Scenario for E2eSim {
                     match excused(case, &res, p, rec) {
                         Some(why) => out.count(&format!("probe.request_failed_excused_{}", why)),
                         None if handler_failed => out.count("probe.request_failed_handler_error"),
-                        None => viol(
+                        None => {
+                            // C02 seen end to end (the real HttpConnection, which the pool checks stub): in a
+                            // fault-free run a request that hyper refused on the spot ("not ready" / cancelled,
+                            // never reaching a handler) while another request's HTTP/1 exchange with the same
+                            // origin was in progress was handed that busy connection
+                            let refused = (kind.contains("not ready") || kind.contains("canceled")) && !res.log.seen.iter().any(|s| s.id == p.id);
+                            let failed_at = rec.end_ms.unwrap_or(0);
+                            let busy_peer = case.requests.iter().find(|q| {
+                                q.id != p.id
+                                    && q.origin == p.origin
+                                    && res.log.seen.iter().any(|s| s.id == q.id && s.version != http::Version::HTTP_2 && s.start_ms <= failed_at)
+                                    && res.recs.get(&q.id).map(|r| r.end_ms.map(|e| e >= failed_at).unwrap_or(true) && !matches!(r.outcome, ROutcome::Cancelled(..))).unwrap_or(false)
+                            });
+                            if let (true, false, Some(q)) = (refused, any_fault, busy_peer) {
+                                viols.borrow_mut().push(Violation::new(
+                                    "C02",
+                                    "busy_connection_handed_out",
+                                    json!({"kind": "e2e"}),
+                                    format!(
+                                        "request {} ({:?} to {}) was refused by hyper at {} ms ({}) without reaching the server, while request {}'s HTTP/1 exchange with the same origin was still in progress: it was given a connection that had not become ready again",
+                                        p.id, p.ver, case.origins[p.origin].uri, failed_at, kind, q.id
+                                    ),
+                                ));
+                            }
+                            viol(
                             "spurious_failure",
                             json!({"faulty": any_fault}),
                             format!(
                                 "request {} ({} {:?} to {}) was not cancelled and no connection of its origin was broken, but it failed: {}",
                                 p.id, p.method, p.ver, case.origins[p.origin].uri, kind
                             ),
-                        ),
+                        )
+                        }
                     }
                 }
                 ROutcome::Pending if res.runaway => out.count("probe.runaway_run_cut_short"),
